@@ -608,13 +608,17 @@ impl<T: Send, R: ReceiverStore<T>> RendezvousShared<T, R> {
   /// and was removed (the owner keeps its payload); `false` if the handoff
   /// already committed (delivery stands).
   pub(crate) fn cancel_sender(&self, state_ptr: *const AtomicU8, state: &AtomicU8) -> bool {
+    // The handoff (pop the record, move the payload, publish DONE) runs under
+    // the core lock, so the cancellation must be decided under it too: a CAS
+    // taken outside the lock can land between the pop and the DONE store, which
+    // would report "cancelled" for a delivery that then completes anyway.
+    let mut core = self.core.lock();
     if state
       .compare_exchange(WAITING, CANCELLED, Ordering::SeqCst, Ordering::SeqCst)
       .is_err()
     {
       return false;
     }
-    let mut core = self.core.lock();
     if let Some(pos) = core.sender_waiters.iter().position(|r| r.state == state_ptr) {
       core.sender_waiters.remove(pos);
     }
@@ -625,13 +629,15 @@ impl<T: Send, R: ReceiverStore<T>> RendezvousShared<T, R> {
   /// `WAITING` and was removed; `false` if a sender already committed the
   /// handoff (the item now sits in the receiver's `dest`).
   pub(crate) fn cancel_receiver(&self, state_ptr: *const AtomicU8, state: &AtomicU8) -> bool {
+    // Decided under the core lock, like the handoff (see `cancel_sender`).
+    let mut core = self.core.lock();
     if state
       .compare_exchange(WAITING, CANCELLED, Ordering::SeqCst, Ordering::SeqCst)
       .is_err()
     {
       return false;
     }
-    self.core.lock().receivers.remove_receiver(state_ptr);
+    core.receivers.remove_receiver(state_ptr);
     true
   }
 }
